@@ -1,11 +1,10 @@
 import Ldlm.Proofs.CoreMain
 import Ldlm.Props.C08
-import Ldlm.Props.Pins
 /-!
 C18 — Admin IPC list and unlock work against the live server.
 
 M2 carries the admin operations: the listing is the session table (`Locks()`), `ipcUnlock name key`
-is `IPC.Unlock` (pinned to its source text by `Pins.pin_IpcUnlock`).
+is `IPC.Unlock` (pinned to its source text by `Pins.C18.pin_IpcUnlock`).
 
 * `ipc_unlock_by_key_equiv` — with a key given, the admin unlock is exactly the state transition and
   answer of the holder's own Unlock, whichever session (or none) issues it: same effect on capacity,
